@@ -934,6 +934,13 @@ def _c09_copy(ctx):
     _c09_one(ctx, lines, [], names, 'copy', 'copy', [u, 1], mid=1, op_mid=0)
 
 
+def _held_var(b, name):
+    """a variable node the caller holds (operands must be referenced under dynamic reordering)"""
+    u = b.var(name)
+    b.incref(u)
+    return u
+
+
 def _c09_direct(ctx):
     """Entry points that are not protocol ops: one-shot iterables as arguments, autoref.find_or_add,
     pickle load; reordering request fired at k = 1.. via the patched `_request_reordering`."""
@@ -959,6 +966,19 @@ def _c09_direct(ctx):
             ('exist-generator', lambda b, r, qs, fa: b.exist((x for x in qs), r)),
             ('forall-iter', lambda b, r, qs, fa: b.forall(iter(list(qs)), r)),
             ('cube-generator', lambda b, r, qs, fa: b.cube(x for x in qs)),
+            # KEYWORD arguments through the retry wrapper (it must pass them on to both attempts)
+            ('quantify-keywords', lambda b, r, qs, fa: b.quantify(u=r, qvars=set(qs), forall=fa)),
+            ('quantify-forall-keyword', lambda b, r, qs, fa: b.quantify(r, set(qs), forall=fa)),
+            ('exist-keywords', lambda b, r, qs, fa: b.exist(qvars=set(qs), u=r)),
+            ('ite-keywords', lambda b, r, qs, fa: b.ite(g=_held_var(b, qs[0]), u=r, v=-r)),
+            ('apply-keywords', lambda b, r, qs, fa: b.apply('xor', u=r, v=_held_var(b, qs[0]))),
+            ('apply-w-keyword', lambda b, r, qs, fa: b.apply('ite', _held_var(b, qs[0]), r, w=-r)),
+            ('cofactor-keywords', lambda b, r, qs, fa: b.cofactor(u=r, values={q: fa for q in qs})),
+            ('compose-keywords', lambda b, r, qs, fa: b.compose(f=r, var_sub={qs[0]: -r})),
+            ('rename-keywords', lambda b, r, qs, fa: b.rename(u=_held_var(b, qs[0]), dvars={qs[0]: [n for n in names if n != qs[0]][0]})),
+            ('let-keywords', lambda b, r, qs, fa: b.let(definitions={q: fa for q in qs}, u=r)),
+            ('cube-keyword', lambda b, r, qs, fa: b.cube(dvars={q: fa for q in qs})),
+            ('var-keyword', lambda b, r, qs, fa: b.var(var=qs[0])),
         ]
         qs = rng.sample(names, rng.randint(1, len(names) - 1))
         fa = bool(rng.randint(0, 1))
